@@ -74,6 +74,7 @@ func c07Run(c *hx.Ctx) {
 		n = 3000
 	}
 	jlsKernels(c, n)
+	jlsRunSegments(c, 2*n)
 
 	// every NEAR value is visited (at the smallest precision that admits it and at a random larger one)
 	for near := 0; near <= 255; near++ {
@@ -116,6 +117,24 @@ func c07Run(c *hx.Ctx) {
 			}
 		}
 	}
+	// run-then-jump family, NEAR 0, 1, 2, 3 and max
+	jlsRunJumpImages(r, c.Thorough(), func(p int) []int {
+		mx := min(255, ((1<<uint(p))-1)/2)
+		l := []int{0, min(1, mx), min(2, mx)}
+		if c.Thorough() {
+			l = append(l, min(3, mx), mx)
+		}
+		return l
+	}, func(im jlsImage, near int) {
+		if c07Check(c, im, near) {
+			if enc, oc := jlsEncNear(im, near); oc == "ok" {
+				if _, st, err := c14Decode(enc); err == nil {
+					jlsRunCounters(c, st)
+				}
+			}
+		}
+	})
+	jlsRunCoverageNote(c)
 	// small exhaustive part: all 1x1..2x2 images at P=2 for NEAR 0 and 1, all 1x3 / 3x1
 	for _, near := range []int{0, 1} {
 		for w := 1; w <= 3; w++ {
